@@ -1,0 +1,144 @@
+//go:build verif
+
+package json
+
+// Contracts for govc (see /verif/DESIGN.md; oracle: /verif/spec/50_decimal.gvs).
+// Comment-only file.
+
+//@ func (Number).int()
+//@   props C10
+//@   requires wfNumber(n)
+//@   nopanic
+//@   ensures result.$arr == n.nat.$arr && result.$off == n.nat.$off && len(result) == intLen(n)
+
+//@ func (Number).fra()
+//@   props C10
+//@   requires wfNumber(n)
+//@   nopanic
+//@   ensures result.$arr == n.nat.$arr && result.$off == n.nat.$off + intLen(n) && len(result) == n.exp
+
+//@ func (Number).LengthOfFractionalPart()
+//@   props C10 C02
+//@   requires wfNumber(n)
+//@   nopanic
+//@   ensures result == n.exp
+
+//@ func (Number).not(cmp)
+//@   props C10
+//@   requires cmp == 1 || cmp == 0 || cmp == 0 - 1
+//@   nopanic
+//@   ensures result == 0 - cmp
+
+// integer parts: sign of |int(n)| - |int(nn)| as exact integers
+//@ func (Number).cmpInt(nn)
+//@   props C10
+//@   requires nn != nil && normNumber(n) && normNumber(*nn)
+//@   nopanic
+//@   uses Hn_lt_pow10(n, intLen(n)), Hn_lt_pow10(*nn, intLen(*nn)), Hn_ge_pow10(n, intLen(n)), Hn_ge_pow10(*nn, intLen(*nn))
+//@   uses pow10_mono(intLen(n), intLen(*nn) - 1), pow10_mono(intLen(*nn), intLen(n) - 1), prefix_eq(n, *nn, intLen(n))
+//@   ensures r == sgn(Hn(n, intLen(n)) - Hn(*nn, intLen(*nn)))
+//@   ensures r == 0 ==> intLen(n) == intLen(*nn) && (forall j :: 0 <= j && j < intLen(n) ==> dig(n, j) == dig(*nn, j))
+//@   loop 0 invariant 0 <= i && i <= xLen && xLen == intLen(n) && yLen == intLen(*nn) && xLen == yLen
+//@   loop 0 invariant x.$arr == n.nat.$arr && x.$off == n.nat.$off && y.$arr == nn.nat.$arr && y.$off == nn.nat.$off && len(x) == xLen && len(y) == yLen
+//@   loop 0 invariant forall j :: 0 <= j && j < i ==> dig(n, j) == dig(*nn, j)
+//@   loop 0 lemma first_diff(n, *nn, i, xLen)
+//@   loop 0 lemma first_diff(*nn, n, i, xLen)
+//@   loop 0 decreases xLen - i
+
+// fractions, given equal integer parts: the whole comparison of the absolute values
+//@ func (Number).cmpFra(nn)
+//@   props C10
+//@   requires nn != nil && normNumber(n) && normNumber(*nn)
+//@   requires intLen(n) == intLen(*nn) && (forall j :: 0 <= j && j < intLen(n) ==> dig(n, j) == dig(*nn, j))
+//@   nopanic
+//@   uses prefix_eq(n, *nn, intLen(n) + maxExp(n, *nn))
+//@   ensures r == cmpAbsExact(n, *nn)
+//@   loop 0 invariant 0 <= i && i <= length && length == maxExp(n, *nn) && xLen == n.exp && yLen == nn.exp
+//@   loop 0 invariant x.$arr == n.nat.$arr && x.$off == n.nat.$off + intLen(n) && len(x) == xLen && y.$arr == nn.nat.$arr && y.$off == nn.nat.$off + intLen(*nn) && len(y) == yLen
+//@   loop 0 invariant forall j :: 0 <= j && j < intLen(n) + i ==> dig(n, j) == dig(*nn, j)
+//@   loop 0 lemma first_diff(n, *nn, intLen(n) + i, intLen(n) + length)
+//@   loop 0 lemma first_diff(*nn, n, intLen(n) + i, intLen(n) + length)
+//@   loop 0 decreases length - i
+
+//@ func (Number).cmpAbs(nn)
+//@   props C10
+//@   requires nn != nil && normNumber(n) && normNumber(*nn)
+//@   nopanic
+//@   uses concat_lt(n, *nn, intLen(n), intLen(*nn), maxExp(n, *nn)), concat_lt(*nn, n, intLen(*nn), intLen(n), maxExp(n, *nn))
+//@   ensures r == cmpAbsExact(n, *nn)
+
+// C10: the verdict is the sign of the difference of the exact values
+//@ func (Number).Cmp(nn)
+//@   props C10 C02
+//@   requires nn != nil && normNumber(n) && normNumber(*nn)
+//@   nopanic
+//@   uses norm_nonzero(n), norm_nonzero(*nn)
+//@   ensures result == cmpExact(n, *nn)
+
+//@ func (Number).Equal(nn)
+//@   props C10
+//@   requires nn != nil && normNumber(n) && normNumber(*nn)
+//@   nopanic
+//@   ensures result == (cmpExact(n, *nn) == 0)
+//@ func (Number).GreaterThan(nn)
+//@   props C10 C02
+//@   requires nn != nil && normNumber(n) && normNumber(*nn)
+//@   nopanic
+//@   ensures result == (cmpExact(n, *nn) == 1)
+//@ func (Number).GreaterThanOrEqual(nn)
+//@   props C10 C02
+//@   requires nn != nil && normNumber(n) && normNumber(*nn)
+//@   nopanic
+//@   ensures result == (cmpExact(n, *nn) >= 0)
+//@ func (Number).LessThan(nn)
+//@   props C10 C02
+//@   requires nn != nil && normNumber(n) && normNumber(*nn)
+//@   nopanic
+//@   ensures result == (cmpExact(n, *nn) == 0 - 1)
+//@ func (Number).LessThanOrEqual(nn)
+//@   props C10 C02
+//@   requires nn != nil && normNumber(n) && normNumber(*nn)
+//@   nopanic
+//@   ensures result == (cmpExact(n, *nn) <= 0)
+
+// ---- normalisation (C10: "depends only on its normalised decimal expansion") ----
+
+//@ func (*Number).trimLeadingZerosInTheIntegerPart()
+//@   props C10
+//@   requires n != nil && (forall k :: 0 <= k && k < len(n.nat) ==> isDigit(n.nat[k]))
+//@   nopanic
+//@   modifies n.nat
+//@   ensures (result == nil) == old(0 <= n.exp && n.exp <= len(n.nat))
+//@   ensures result == nil ==> wfNumber(*n) && (intLen(*n) > 0 ==> n.nat[0] != '0') && n.nat.$arr == old(n.nat.$arr)
+//@   ensures result == nil ==> (exists d :: 0 <= d && d <= old(intLen(*n)) && len(n.nat) == old(len(n.nat)) - d && n.nat.$off == old(n.nat.$off) + d && (forall j :: 0 <= j && j < d ==> old(n.nat[j]) == '0'))
+//@   ensures result != nil ==> n.nat == old(n.nat)
+//@   loop 0 invariant 0 <= intLen && intLen == len(n.nat) - n.exp && n.exp == old(n.exp) && n.nat.$arr == old(n.nat.$arr)
+//@   loop 0 invariant n.nat.$off + len(n.nat) == old(n.nat.$off + len(n.nat)) && n.nat.$off >= old(n.nat.$off) && cap(n.nat) >= len(n.nat)
+//@   loop 0 invariant forall j :: 0 <= j && j < n.nat.$off - old(n.nat.$off) ==> old(n.nat[j]) == '0'
+//@   loop 0 invariant forall k :: 0 <= k && k < len(n.nat) ==> isDigit(n.nat[k])
+//@   loop 0 decreases intLen
+
+//@ func (*Number).trimTrailingZerosInTheFractionalPart()
+//@   props C10
+//@   requires n != nil && (forall k :: 0 <= k && k < len(n.nat) ==> isDigit(n.nat[k]))
+//@   nopanic
+//@   modifies n.nat, n.exp
+//@   ensures (result == nil) == old(0 <= n.exp && n.exp <= len(n.nat))
+//@   ensures result == nil ==> wfNumber(*n) && (n.exp > 0 ==> n.nat[len(n.nat)-1] != '0') && n.nat.$arr == old(n.nat.$arr) && n.nat.$off == old(n.nat.$off)
+//@   ensures result == nil ==> intLen(*n) == old(intLen(*n)) && len(n.nat) <= old(len(n.nat)) && (forall j :: len(n.nat) <= j && j < old(len(n.nat)) ==> old(n.nat[j]) == '0')
+//@   ensures result != nil ==> n.nat == old(n.nat) && n.exp == old(n.exp)
+//@   loop 0 invariant 0 <= n.exp && n.exp <= len(n.nat) && len(n.nat) - n.exp == old(len(n.nat) - n.exp) && n.nat.$arr == old(n.nat.$arr) && n.nat.$off == old(n.nat.$off) && len(n.nat) <= old(len(n.nat))
+//@   loop 0 invariant forall j :: len(n.nat) <= j && j < old(len(n.nat)) ==> old(n.nat[j]) == '0'
+//@   loop 0 decreases n.exp
+
+// NewNumber: ASSUMED for now (the numeral scanner is not yet under contract):
+// a successfully scanned number is in normal form; parseOK/parsedCmp/precLen
+// are defined by this contract.
+//@ func NewNumber(b)
+//@   props C10 C02
+//@   trusted "numeral scanner (internal/json/scanner.go) not yet verified: result assumed to be a fresh Number in normal form denoting the numeral"
+//@   nopanic
+//@   ensures (result1 == nil) == parseOK(b)
+//@   ensures result1 == nil ==> result0 != nil && fresh(result0) && normNumber(*result0) && result0.exp == precLen(b)
+//@   ensures result1 == nil ==> (forall a Number {cmpExact(a, *result0)} :: cmpExact(a, *result0) == parsedCmp(a, b))
+//@   ensures result1 != nil ==> tag(result1) != typetag(errors.DocumentError)
